@@ -206,17 +206,17 @@ pub fn class_for(flag: &str) -> Vec<String> {
         "output-format" => v(&["semver", "pep440", "zerv", "bogus", ""]),
         "directory" => v(PATHS),
         "output-template" | "template" => [v(TEMPLATES), long_values()].concat(),
-        "output-prefix" => [v(&["v", "", "release-", "é", "{{ major }}", "\n", "v v"]), long_values()].concat(),
+        "output-prefix" => [v(&["v", "", "release-", "é", "{{ major }}", "\n", "v v"]), long_texts()[7..10].to_vec()].concat(),
         "schema" => v(SCHEMAS),
-        "schema-ron" => v(SCHEMA_RONS),
+        "schema-ron" => [v(SCHEMA_RONS), deep_values()].concat(),
         "tag-version" => [v(VERSIONS), long_values()].concat(),
         "bumped-branch" => [v(TEXTS), long_values()].concat(),
-        "bumped-commit-hash" => [v(HASHES), long_values()].concat(),
-        "custom" => v(CUSTOMS),
+        "bumped-commit-hash" => [v(HASHES), long_texts()[..3].to_vec()].concat(),
+        "custom" => [v(CUSTOMS), deep_values()].concat(),
         "core" | "extra-core" | "build" | "bump-core" | "bump-extra-core" | "bump-build" => v(INDEX_VALUES),
         "pre-release-label" | "bump-pre-release-label" => v(LABELS),
         "post-mode" => v(&["tag", "commit", "never", "", "TAG"]),
-        "branch-rules" => v(BRANCH_RULES),
+        "branch-rules" => [v(BRANCH_RULES), deep_values()].concat(),
         "hash-branch-len" => v(&["0", "1", "5", "9", "10", "11", "20", "4294967296", "-1", "x"]),
         "distance" | "major" | "minor" | "patch" | "epoch" | "post" | "dev" | "pre-release-num" | "bumped-timestamp" | "bump-major" | "bump-minor"
         | "bump-patch" | "bump-post" | "bump-dev" | "bump-pre-release-num" | "bump-epoch" => v(NUMS),
@@ -311,6 +311,21 @@ pub fn systematic() -> Vec<Vec<String>> {
 /// long values (plain, and with multi-byte characters at every byte offset class): buffers,
 /// truncation of diagnostics and fixed-size assumptions only show beyond a few hundred bytes
 pub fn long_values() -> Vec<String> {
+    [long_texts(), deep_values()].concat()
+}
+
+/// deep nesting: recursive-descent parsers behind templates, RON and JSON
+pub fn deep_values() -> Vec<String> {
+    vec![
+        format!("{{{{ {}1{} }}}}", "(".repeat(3000), ")".repeat(3000)),
+        format!("{}x{}", "{% if true %}".repeat(3000), "{% endif %}".repeat(3000)),
+        format!("{}{}", "[".repeat(5000), "]".repeat(5000)),
+        format!("{}1{}", "{\"a\":".repeat(3000), "}".repeat(3000)),
+        format!("{}{}", "(".repeat(5000), ")".repeat(5000)),
+    ]
+}
+
+pub fn long_texts() -> Vec<String> {
     let mut v = vec![];
     for n in [255usize, 256, 399, 400, 401, 1000, 5000] {
         v.push("a".repeat(n));
